@@ -129,18 +129,21 @@ impl RetryPolicy {
                         #[allow(clippy::cast_precision_loss)]
                         // Precision loss is acceptable for jitter calculation
                         let jitter_ms = (delay.as_millis() as f64 * jitter) as u64;
-                        delay += Duration::from_millis(jitter_ms);
+                        // A hint near Duration::MAX must not overflow the addition
+                        delay = delay.saturating_add(Duration::from_millis(jitter_ms));
                     }
 
                     sleep(delay).await;
 
                     // Increase backoff (clamped to [0, max_backoff]; a negative product
-                    // would make Duration::from_secs_f64 panic)
-                    backoff = Duration::from_secs_f64(
+                    // would make Duration::from_secs_f64 panic, and so would a product
+                    // capped by a max_backoff whose f64 value rounds up past Duration::MAX)
+                    backoff = Duration::try_from_secs_f64(
                         (backoff.as_secs_f64() * self.multiplier)
                             .min(self.max_backoff.as_secs_f64())
                             .max(0.0),
-                    );
+                    )
+                    .unwrap_or(self.max_backoff);
                 }
             }
         }
